@@ -204,7 +204,7 @@ def c06_live(rep, rnd, thorough):
         cert.remove()
 
 
-def started_server_idle_reader(rep, cert):
+def started_server_idle_reader(rep, cert, formula="ByteExact"):
     """The servers the REAL start_server builds (both backends), a static file larger than the kernel's socket buffers,
     and a reader that idles for a few seconds after the header: every byte must still arrive."""
     import shutil
@@ -232,7 +232,7 @@ def started_server_idle_reader(rep, cert):
         want = b"20 text/gemini\r\n" + content.encode()
         for bk, (data, end) in results.items():
             if data != want or end != "eof":
-                rep.violation({"formula": "ByteExact", "backend": bk, "live": True, "reader": "idle", "via": "start_server"},
+                rep.violation({"formula": formula, "backend": bk, "live": True, "reader": "idle", "via": "start_server"},
                               "server started by start_server (%s backend), 24 MiB static file, reader idle for %.0f s after the header: received %d of %d bytes, end=%s" % (
                                   bk, IDLE_S[0], len(data), len(want), end), None)
         return len(results)
